@@ -40,6 +40,8 @@ T = TypeVar("T")
 
 
 def _is_del_mark(val) -> bool:
+    if isinstance(val, np.ndarray) and val.ndim == 0:
+        val = val[()]  # scalar wrapped as 0-dim array
     return isinstance(val, np.void) and val.tobytes() == DEL_VALUE.tobytes()
 
 
@@ -445,6 +447,7 @@ class IH5Dataset(IH5Node):
         self._guard_read_only()
         if self._cidx != self._last_idx:
             raise ValueError(f"Cannot set '{key}', node is not from the latest patch!")
+        self._guard_value(val)
         # if we're in the latest patch, allow writing as usual (pass through)
         self._files[-1][self._gpath][key] = val  # type: ignore
 
